@@ -1,19 +1,19 @@
 #!/bin/bash
 # Run every check against every behaviour-preserving change under benign/: apply to /repo's working tree, ./check <all> quick, revert.
 # Every check must exit 0 (no VIOLATION line): a report here is a false alarm of the machinery. Usage: run_benign.sh [dir ...]
-cd /verif; bad=0
+V="$(cd "$(dirname "$0")/.." && pwd)"; REPO="${VERIF_REPO:-/repo}"; export VERIF_REPO="$REPO"; cd $V; bad=0; T=$(mktemp -d /tmp/urisim_mut.XXXXXX)
 PROPS="${PROPS:-C03 C05 C07 C11 C12 C13 C14 C15 C17 C20}"
 dirs="$@"; [ -n "$dirs" ] || dirs=$(ls -d benign/*/)
 for d in $dirs; do
   d=${d%/}; id=$(basename $d)
   [ -f $d/patch.diff ] || continue
-  git -C /repo apply /verif/$d/patch.diff || { echo "$id: patch does not apply"; bad=1; continue; }
+  git -C $REPO apply $V/$d/patch.diff || { echo "$id: patch does not apply"; bad=1; continue; }
   line="$id:"
   for p in $PROPS; do
-    out=$(./check $p quick --evidence /tmp/urisim_mut_ev --replays /tmp/urisim_mut_rp 2>&1); rc=$?
+    out=$(./check $p quick --evidence $T/ev --replays $T/rp 2>&1); rc=$?
     if [ $rc = 0 ]; then line="$line $p=ok"; else line="$line $p=EXIT$rc"; bad=1; echo "$out" | grep -E "VIOLATION|  class:|HARNESS" | head -4 | sed "s/^/    [$id $p] /"; fi
   done
-  git -C /repo checkout -- .
+  git -C $REPO checkout -- .
   echo "$line"
 done
-exit $bad
+rm -rf $T; exit $bad
